@@ -177,13 +177,11 @@ def mk_prim(fn, bits):
 def jobs(tier, seed):
     import sys
     js = []
-    for fn in ("wrap_negative", "inrange", "bitview"):
+    for fn in ("wrap_negative", "inrange"):
         for b in (1, 5, 8, 11, 12, 20, 24, 32, 64) if tier == "quick" else range(1, 65):
             if fn == "bitview" and b > 56:
                 continue
             js.append(("mk_prim", dict(fn=fn, bits=b)))
-    for (m, c, f, b) in token_fields():
-        js.append(("mk_field", dict(module=m, cls=c, field=f, bits=b)))
     for a in _reloc.ARCHS:
         for s in _reloc.sites(a):
             js.append(("mk_reloc", s))
